@@ -108,3 +108,97 @@ func TestRegressReloadSingleLeaf(t *testing.T) {
 		cl()
 	}
 }
+
+// C11-F5: hash arguments that are sub-slices of one buffer (spare capacity up to the end of the buffer) must give the same
+// answers as independent slices and must not be overwritten. Minimal: 3 leaves a,b,c.
+func TestRegressHashArgumentsInOneBuffer(t *testing.T) {
+	leaves := detLeaves(3)
+	tr := rmt.NewRegularMerkleTree(newMapDB())
+	for _, v := range leaves {
+		if err := tr.Append(v); err != nil {
+			t.Fatal(err)
+		}
+	}
+	root := m.Root(leaves)
+	// proof for leaf 1: siblings [leafHash(a), leafHash(c)]
+	q := [][]byte{m.LeafHash(leaves[1])}
+	proof, err := tr.GenerateProof(copyList(q))
+	if err != nil || len(proof.SiblingHashes) != 2 {
+		t.Fatalf("GenerateProof: %v %v", proof, err)
+	}
+	a := buildAlias("spare", [][][]byte{proof.SiblingHashes}, proof.Idxs)
+	ok := rmt.VerifyProof(copyList(q), &rmt.Proof{Size: 3, Idxs: a.idxs, SiblingHashes: a.lists[0]}, root)
+	if !ok || !bytes.Equal(a.buf, a.buf0) {
+		knownOrFail(t, sigF5, "VerifyProof with SiblingHashes = [buf[0:32], buf[32:64]] of one buffer: result %v (want true), buffer before %x after %x", ok, a.buf0, a.buf)
+	}
+	// update root through the same layout
+	nd := [][]byte{[]byte("new b")}
+	want := m.Root([][]byte{leaves[0], nd[0], leaves[2]})
+	a = buildAlias("spare", [][][]byte{proof.SiblingHashes}, proof.Idxs)
+	got, err := rmt.CalculateRootFromUpdateData(nd, &rmt.Proof{Size: 3, Idxs: a.idxs, SiblingHashes: a.lists[0]})
+	if err != nil || !bytes.Equal(got, want) || !bytes.Equal(a.buf, a.buf0) {
+		knownOrFail(t, sigF5, "CalculateRootFromUpdateData with SiblingHashes in one buffer: %x (%v), want %x; buffer before %x after %x", got, err, want, a.buf0, a.buf)
+	}
+	// append path [leafHash(c), H(a,b)] in one buffer: prediction of the append of d
+	a = buildAlias("spare", [][][]byte{tr.AppendPath()}, nil)
+	pred := rmt.CalculateRootFromAppendPath([]byte("d"), a.lists[0], 3)
+	if wantR := m.Root(append(copyList(leaves), []byte("d"))); !bytes.Equal(pred.Root, wantR) || !bytes.Equal(a.buf, a.buf0) {
+		knownOrFail(t, sigF5, "CalculateRootFromAppendPath with the append path in one buffer: root %x, want %x; buffer before %x after %x", pred.Root, wantR, a.buf0, a.buf)
+	}
+	// right witness at index 1: append path of [a] and witness [leafHash(b), leafHash(c)] in one buffer
+	wit, err := tr.GenerateRightWitness(1)
+	if err != nil {
+		t.Fatal(err)
+	}
+	a = buildAlias("spare", [][][]byte{m.AppendPath(leaves[:1]), copyList(wit)}, nil)
+	if ok := rmt.VerifyRightWitness(1, a.lists[0], a.lists[1], root); !ok || !bytes.Equal(a.buf, a.buf0) {
+		knownOrFail(t, sigF5, "VerifyRightWitness with append path and witness in one buffer: %v (want true); buffer before %x after %x", ok, a.buf0, a.buf)
+	}
+}
+
+// Argument immutability of the shared path computation (seeded change class: working on the caller's index slice): a proof
+// queried in a non-ascending order is used for several calls; its index list must stay as generated and every use must agree
+// with fresh copies.
+func TestRegressProofObjectReuse(t *testing.T) {
+	n := 11
+	leaves := detLeaves(n)
+	tr := rmt.NewRegularMerkleTree(newMapDB())
+	for _, v := range leaves {
+		if err := tr.Append(v); err != nil {
+			t.Fatal(err)
+		}
+	}
+	root := m.Root(leaves)
+	pos := []int{5, 2, 7, 0}
+	q := make([][]byte, len(pos))
+	nd := make([][]byte, len(pos))
+	mod := copyList(leaves)
+	for j, p := range pos {
+		q[j] = m.LeafHash(leaves[p])
+		nd[j] = newLeaf(n, 0, j)
+		mod[p] = nd[j]
+	}
+	proof, err := tr.GenerateProof(q)
+	if err != nil {
+		t.Fatal(err)
+	}
+	ref := cloneProof(proof)
+	for use := 1; use <= 2; use++ {
+		if !rmt.VerifyProof(q, proof, root) {
+			t.Fatalf("use %d of the same proof object: VerifyProof = false (idxs now %v, generated %v)", use, proof.Idxs, ref.Idxs)
+		}
+		if fmt.Sprint(proof.Idxs) != fmt.Sprint(ref.Idxs) {
+			t.Fatalf("VerifyProof changed proof.Idxs: generated %v, now %v", ref.Idxs, proof.Idxs)
+		}
+	}
+	got, err := rmt.CalculateRootFromUpdateData(nd, proof)
+	if err != nil || !bytes.Equal(got, m.Root(mod)) {
+		t.Fatalf("CalculateRootFromUpdateData through the verified proof object = %x (%v), root of the modified list = %x", got, err, m.Root(mod))
+	}
+	if err := tr.Update(proof.Idxs, nd); err != nil || !bytes.Equal(tr.Root(), m.Root(mod)) {
+		t.Fatalf("Update(proof.Idxs) = %x (%v), root of the modified list = %x", tr.Root(), err, m.Root(mod))
+	}
+	if fmt.Sprint(proof.Idxs) != fmt.Sprint(ref.Idxs) {
+		t.Fatalf("proof.Idxs changed: generated %v, now %v", ref.Idxs, proof.Idxs)
+	}
+}
